@@ -65,8 +65,9 @@ type nodeState struct {
 	st         ev.St
 	hasSt      bool
 	commit     uint64
-	latest     *ev.Cfg        // latest configuration according to the node
-	removedFor map[uint64]int // index of the configuration that removed it -> incarnation that shut down for it
+	latest     *ev.Cfg           // latest configuration according to the node
+	roundDone  map[uint64]uint64 // leader: node -> ordinal of the last round reported complete
+	removedFor map[uint64]int    // index of the configuration that removed it -> incarnation that shut down for it
 	// C17: the leader this node hears from, and what that leader has sent to
 	// the other nodes since it last contacted this one (while no fault is active)
 	followL, followT uint64
@@ -157,7 +158,7 @@ type Analyzer struct {
 	elXfer        map[[3]uint64]bool // (cid, candidate, term) -> the election had transfer permission
 	alias         map[uint64]uint64  // virtual node id -> peer id it speaks as (engine B)
 	nutGone       bool
-	wireQ         []*ev.Rec          // requests announced by the wire-level peer, not yet handled by the node
+	wireQ         []*ev.Rec // requests announced by the wire-level peer, not yet handled by the node
 	cfgPayload    map[[3]uint64]*ev.Cfg
 	ticks         int64
 	faultsStopped bool
@@ -797,6 +798,7 @@ func (a *Analyzer) onOpen(n *nodeState, r *ev.Rec) {
 	n.appliedIdx, n.fsmLen, n.fsmRoll, n.hasFsmVal = 0, 0, ev.RollInit, false
 	n.pendingDemote = 0
 	n.rounds = map[uint64]bool{}
+	n.roundDone = map[uint64]uint64{}
 	n.serving = false
 	n.snapTouched = st.Snap > 0
 	a.checkTerm(n, st.Term, r.Q, "open")
